@@ -202,6 +202,62 @@ impl Iterator for LiarIter {
     }
 }
 
+static REF_DATA: [u8; 64] = {
+    let mut a = [0u8; 64];
+    let mut i = 0;
+    while i < 64 {
+        a[i] = 0x10 + (i as u8 & 0x0f);
+        i += 1;
+    }
+    a
+};
+/// by-reference iterator (`Extend<&u8>`) with a scripted size hint
+pub struct LiarRefIter {
+    left: usize,
+    hint: (usize, Option<usize>),
+    produced: usize,
+}
+impl Iterator for LiarRefIter {
+    type Item = &'static u8;
+    fn next(&mut self) -> Option<&'static u8> {
+        if self.left == 0 {
+            return None;
+        }
+        self.left -= 1;
+        self.produced += 1;
+        Some(&REF_DATA[self.produced % 64])
+    }
+    fn size_hint(&self) -> (usize, Option<usize>) {
+        self.hint
+    }
+}
+
+/// A Buf that is honest about remaining/chunk/advance but whose `chunks_vectored` returns a scripted
+/// count (it fills at most one slot)
+pub struct VecLiar {
+    data: Vec<u8>,
+    pos: usize,
+    claim: usize,
+}
+impl Buf for VecLiar {
+    fn remaining(&self) -> usize {
+        self.data.len() - self.pos
+    }
+    fn chunk(&self) -> &[u8] {
+        &self.data[self.pos..]
+    }
+    fn advance(&mut self, cnt: usize) {
+        assert!(cnt <= self.remaining());
+        self.pos += cnt;
+    }
+    fn chunks_vectored<'a>(&'a self, dst: &mut [IoSlice<'a>]) -> usize {
+        if !dst.is_empty() && self.pos < self.data.len() {
+            dst[0] = IoSlice::new(&self.data[self.pos..]);
+        }
+        self.claim
+    }
+}
+
 // ------------------------------------------------------------------ entry points
 
 /// bytes an entry point handed back to the caller (checked for guard / poison values)
@@ -783,6 +839,132 @@ pub fn run(tier: &str, parity_odd: bool, shard: usize, nshards: usize, rep: &mut
                     let end = oracle::end_execution();
                     if !end.leaked.is_empty() || end.corrupt.is_some() {
                         rep.violate("C17", "cursor-owner:leak", &format!("io::Cursor over an inconsistent AsRef with {}: {:?}", what, end), "");
+                    }
+                }
+            }
+        }
+        // ---- a Buf whose chunks_vectored over- or under-reports the number of slices it filled, behind the crate's adapters
+        static VSENT: [u8; 3] = [0x5e, 0x5e, 0x5e];
+        for claim in [0usize, 1, 2, 15, 16, 17, 18, 40, 1000, usize::MAX] {
+            for n in [0usize, 1, 2, 16, 17, 18, 40] {
+                for wrap in 0..6u8 {
+                    oracle::begin_execution(parity_odd);
+                    oracle::sys::set_crash_note(&format!("liar chunks_vectored claim={} dst={} wrap={}", claim, n, wrap));
+                    st.execs += 1;
+                    let mut bad: Option<String> = None;
+                    let r = oracle::subject(|| {
+                        catch_unwind(AssertUnwindSafe(|| {
+                            let liar = VecLiar { data: vec![0x31, 0x32, 0x33, 0x34, 0x35, 0x36], pos: 1, claim };
+                            let (lo, hi) = (liar.data.as_ptr() as usize, liar.data.as_ptr() as usize + liar.data.len());
+                            static OTHER: [u8; 2] = [0x41, 0x42];
+                            let (olo, ohi) = (OTHER.as_ptr() as usize, OTHER.as_ptr() as usize + 2);
+                            let mut dst: Vec<IoSlice<'_>> = (0..n).map(|_| IoSlice::new(&VSENT)).collect();
+                            let mut tk;
+                            let mut ch1;
+                            let mut ch2;
+                            let mut bx: Box<dyn Buf>;
+                            let tr;
+                            let mut lr = VecLiar { data: vec![0x31, 0x32, 0x33, 0x34, 0x35, 0x36], pos: 1, claim };
+                            let (lo2, hi2) = (lr.data.as_ptr() as usize, lr.data.as_ptr() as usize + lr.data.len());
+                            let cnt = match wrap {
+                                0 => {
+                                    tk = Buf::take(liar, 4);
+                                    tk.chunks_vectored(&mut dst)
+                                }
+                                1 => {
+                                    tk = Buf::take(liar, usize::MAX);
+                                    tk.chunks_vectored(&mut dst)
+                                }
+                                2 => {
+                                    ch1 = Buf::chain(liar, &OTHER[..]);
+                                    ch1.chunks_vectored(&mut dst)
+                                }
+                                3 => {
+                                    ch2 = Buf::chain(&OTHER[..], liar);
+                                    ch2.chunks_vectored(&mut dst)
+                                }
+                                4 => {
+                                    bx = Box::new(liar);
+                                    bx.chunks_vectored(&mut dst)
+                                }
+                                _ => {
+                                    drop(liar);
+                                    let r: &mut VecLiar = &mut lr;
+                                    tr = Buf::take(r, 3);
+                                    tr.chunks_vectored(&mut dst)
+                                }
+                            };
+                            // every slot the adapter claims to have filled (and that exists) must point into memory
+                            // one of the buffers really owns; the harness only compares addresses, it never dereferences
+                            for i in 0..cnt.min(n) {
+                                let (p, l) = (dst[i].as_ptr() as usize, dst[i].len());
+                                let ok = (p >= lo && p + l <= hi) || (p >= lo2 && p + l <= hi2) || (p >= olo && p + l <= ohi) || (p == VSENT.as_ptr() as usize && l == 3) || l == 0;
+                                if !ok && bad.is_none() {
+                                    bad = Some(format!("slot {} of {} claimed slots is an IoSlice at {:#x} of {} bytes, outside every buffer", i, cnt, p, l));
+                                }
+                            }
+                        }))
+                    });
+                    match r {
+                        Ok(()) => st.returned += 1,
+                        Err(p) => {
+                            st.panics += 1;
+                            oracle::subject(|| drop(p));
+                        }
+                    }
+                    let what = format!("chunks_vectored that returns {} into a dst of {} slots, adapter {}", claim, n, wrap);
+                    if let Some(b) = bad {
+                        rep.violate("C17", "vectored-count:wild-slice", &format!("{}: {}", what, b), "");
+                    }
+                    if let Some(v) = oracle::take_violation().or_else(oracle::check_canaries) {
+                        rep.violate("C17", "vectored-count:memory", &format!("{}: {}", what, v), "");
+                    }
+                    let end = oracle::end_execution();
+                    if !end.leaked.is_empty() || end.corrupt.is_some() {
+                        rep.violate("C17", "vectored-count:leak", &format!("{}: {:?}", what, end), "");
+                    }
+                }
+            }
+        }
+        // ---- Extend<&u8> with lying size hints (exact-looking hints that are too small are the interesting ones)
+        for left in [5usize, 10, 20, 40] {
+            for hint in [(0usize, None), (3, Some(3)), (9, Some(9)), (12, Some(12)), (33, Some(33)), (50, Some(50)), (left + 1, Some(left + 1))] {
+                for start in 0..3u8 {
+                    oracle::begin_execution(parity_odd);
+                    oracle::sys::set_crash_note(&format!("liar ref-iter left={} hint={:?} start={}", left, hint, start));
+                    st.execs += 1;
+                    let mut out: Out = Vec::with_capacity(128);
+                    let r = oracle::subject(|| {
+                        catch_unwind(AssertUnwindSafe(|| {
+                            let it = LiarRefIter { left, hint, produced: 0 };
+                            let mut m = match start {
+                                0 => BytesMut::new(),
+                                1 => BytesMut::with_capacity(2),
+                                _ => {
+                                    let mut m = BytesMut::with_capacity(16);
+                                    m.extend_from_slice(&[0x21; 16]);
+                                    m
+                                }
+                            };
+                            m.extend(it);
+                            push_bytes(&mut out, &m);
+                        }))
+                    });
+                    match r {
+                        Ok(()) => st.returned += 1,
+                        Err(p) => {
+                            st.panics += 1;
+                            oracle::subject(|| drop(p));
+                        }
+                    }
+                    let what = format!("Extend<&u8> with an iterator that yields {} items and hints {:?}, start {}", left, hint, start);
+                    judge("Extend<&u8>(liar iterator)", &what, &out, rep);
+                    if let Some(v) = oracle::take_violation().or_else(oracle::check_canaries) {
+                        rep.violate("C17", "ref-iter:memory", &format!("{}: {}", what, v), "");
+                    }
+                    let end = oracle::end_execution();
+                    if !end.leaked.is_empty() || end.corrupt.is_some() {
+                        rep.violate("C17", "ref-iter:leak", &format!("{}: {:?}", what, end), "");
                     }
                 }
             }
